@@ -154,6 +154,9 @@ void h_part_length_pair(void)
   __CPROVER_assert(__exc || r >= g_off[2], "C06.decode.a_length_field_and_the_data_field_that_follows_it_are_consumed_together");
   __CPROVER_assert(__exc || (g_nadded >= 2 && g_added_tag[0] == g_tag[0] && g_added_tag[1] == g_tag[1] && g_added_from[1] == 1), "C06.decode.the_data_field_is_built_from_the_fixed_width_value");
   __CPROVER_assert(__exc || (g_nbf >= 2 && g_bf[1].fixed_width && !g_bf[0].fixed_width), "C06.decode.the_data_bytes_are_taken_by_count_not_up_to_the_next_separator");
+  /* C04's "no field ... given a value different from its text": a data value may contain the separator byte, so an accepted data field must be the counted bytes, never the text up to the next separator */
+  __CPROVER_assert(__exc || (g_nbf >= 2 && g_bf[1].tag == g_tag[1] && g_bf[1].from_token == 1 && g_bf[1].fixed_width), "C04.part.strict.an_accepted_data_field_holds_the_counted_bytes_of_its_own_token");
+  __CPROVER_assert(__exc || (g_nadded >= 2 && g_added_tag[1] == g_tag[1] && g_added_from[1] == 1 && g_added_pos[1] == 2), "C04.part.strict.the_data_field_is_retained_under_its_own_tag_in_input_order");
   VACUITY_PROBE();
 }
 /* permissive mode, one part */
@@ -236,7 +239,8 @@ UNIT = dict(
         dict(name='part_strict', harness='h_part_strict', properties=['C04', 'C01'], solvers=['cadical', 'z3'], timeout=dict(quick=600, thorough=1800), floor=6, level='bounded', unwind=5, object_bits=10),
         dict(name='part_length_c03', harness='h_part_length_c03', properties=['C03'], solvers=['cadical', 'z3'], timeout=dict(quick=600, thorough=1800), floor=1, level='bounded', unwind=5, object_bits=10),
         dict(name='part_length_c06', harness='h_part_length_c06', properties=['C06'], solvers=['cadical', 'z3'], timeout=dict(quick=600, thorough=1800), floor=2, level='bounded', unwind=5, object_bits=10),
-        dict(name='part_length_pair', harness='h_part_length_pair', properties=['C06'], solvers=['cadical', 'z3'], timeout=dict(quick=600, thorough=1800), floor=2, level='bounded', unwind=5, object_bits=10),
+        dict(name='part_length_pair', harness='h_part_length_pair_c06', properties=['C06'], solvers=['cadical', 'z3'], timeout=dict(quick=600, thorough=1800), floor=2, level='bounded', unwind=5, object_bits=10),
+        dict(name='part_length_pair_c04', harness='h_part_length_pair_c04', properties=['C04'], solvers=['cadical', 'z3'], timeout=dict(quick=600, thorough=1800), floor=2, level='bounded', unwind=5, object_bits=10),
         dict(name='part_strict_5_tokens', harness='h_part_strict', tier='thorough', cc_flags=['-DNTOK=5'], properties=['C04', 'C01'], solvers=['cadical', 'z3'], timeout=dict(quick=1800, thorough=3600), floor=6, level='bounded', unwind=8, object_bits=10),
         dict(name='part_permissive_5_tokens', harness='h_part_permissive', tier='thorough', cc_flags=['-DNTOK=5'], properties=['C05'], solvers=['cadical', 'z3'], timeout=dict(quick=1800, thorough=3600), floor=3, level='bounded', unwind=8, object_bits=10),
         dict(name='part_permissive', harness='h_part_permissive', properties=['C05'], solvers=['cadical', 'z3'], timeout=dict(quick=600, thorough=1800), floor=3, level='bounded', unwind=5, object_bits=10),
